@@ -146,7 +146,7 @@ def run(pid, tier):
     conn_scs = conn_stage(v, wd, tier, cov, bindir) if pid == "C18" else []
     if pid == "C18":
         mc_runs("NioShared", [("MC_NioShared.cfg", None), ("MC_NioShared_mode_from_flag.cfg", "any"), ("MC_NioShared_restore_asserts.cfg", "NoAbort"),
-                               ("MC_NioShared_keyed_by_number.cfg", "any")], tier, cov)
+                               ("MC_NioShared_keyed_by_number.cfg", "any"), ("MC_NioShared_uncounted_joiner.cfg", "ForcedWhileInProgress")], tier, cov)
     insts = [("MC_Nio.cfg", None)] + [("MC_Nio_%s.cfg" % d, "any") for d in DEVS]
     mc_runs("MC_Nio", insts, tier, cov)
     thorough = tier == "thorough"
